@@ -22,10 +22,23 @@ import (
 	"pgregory.net/rapid"
 )
 
-const (
-	knownNaNCheckC49 = "C49:read-data-subset-nan-percent-accepted"
-	knownNaNPruneC49 = "C49:max-unused-nan-percent-accepted"
-)
+// regression probes: "not a number" percentages used to pass both range comparisons
+// (repaired by "fix: reject NaN percentages for check --read-data-subset and prune --max-unused")
+var nanPercentC49 = []string{"NaN%", "nan%", "NAN%", "nAn%"}
+
+func regressionNaNC49(t *testing.T) {
+	for _, s := range nanPercentC49 {
+		if err := checkFlags(CheckOptions{ReadDataSubset: s}); err == nil {
+			verifkit.SaveReplay("C49", "nan-percent", map[string]string{"read-data-subset": s})
+			t.Fatalf("regression: checkFlags accepts --read-data-subset=%s", s)
+		}
+		o := PruneOptions{MaxUnused: s}
+		if err := verifyPruneOptions(&o); err == nil {
+			verifkit.SaveReplay("C49", "nan-percent", map[string]string{"max-unused": s})
+			t.Fatalf("regression: verifyPruneOptions accepts --max-unused %s (allows %d unused bytes per MiB used)", s, o.maxUnusedBytes(1<<20))
+		}
+	}
+}
 
 // ---- shared generators ----
 
@@ -306,6 +319,7 @@ func genSubsetC49(t *rapid.T) string {
 
 func TestVerifC49CheckFlags(t *testing.T) {
 	st := verifkit.Begin(t, "C49")
+	regressionNaNC49(t)
 	rapid.Check(t, func(t *rapid.T) {
 		s := genSubsetC49(t)
 		readData := rapid.SampledFrom([]int{0, 1, 1, 1, 1, 1, 1, 1, 1, 1, 1, 1, 1, 1, 1, 1, 1, 1, 1, 1}).Draw(t, "readData") == 0
@@ -357,10 +371,6 @@ func TestVerifC49CheckFlags(t *testing.T) {
 					t.Fatalf("checkFlags accepted %q but parsePercentage fails: %v", s, perr)
 				}
 				if !(p > 0 && p <= 100) {
-					if math.IsNaN(p) && st.Known(knownNaNCheckC49) {
-						class = "subset:known-finding-nan"
-						break
-					}
 					t.Fatalf("checkFlags accepted --read-data-subset=%q, which is the percentage %v (not above 0 and at most 100)", s, p)
 				}
 				if ref.pct != nil {
@@ -468,10 +478,6 @@ func TestVerifC49PruneOptions(t *testing.T) {
 					// whatever float syntax was accepted: the value must be in range
 					probe := opts.maxUnusedBytes(1 << 20)
 					if strings.Contains(strings.ToLower(trimmed), "nan") {
-						if st.Known(knownNaNPruneC49) {
-							class = "prune:known-finding-nan"
-							break
-						}
 						t.Fatalf("verifyPruneOptions accepted --max-unused %q (not a number); it allows %d unused bytes per MiB used", mu, probe)
 					}
 				}
